@@ -29,6 +29,20 @@ CLAIMED = {
             "checked against the decoders and the reference.",
             "Completeness of the enumeration rests on the affine-linearity law, which is sampled (and checked completely for "
             "single-symbol errors on the zero codeword). Without the hook files the enumeration runs on reference arithmetic."),
+    "C04": ("property-based testing (rapid) with reference-directed search for rare cases (children with leading-zero scalars); "
+            "oracle = independent BIP32 implementation pinned to BIP32 vectors 1 and 3",
+            "Generated (seed, network, path) cases incl. boundary indices, depth-255 paths, SetNet; every node compared field by "
+            "field with an independent implementation, private, neutered and publicly derived.",
+            "Shares bchec point multiplication/addition with the implementation; stdlib HMAC/SHA. ErrInvalidChild branches are unreachable."),
+    "C05": ("property-based testing (rapid) with constructive generators (recomputed checksums over adversarial payloads, exhaustive "
+            "single-bit flips); oracle = strict reference validator + re-serialisation identity + BIP32 children of parsed fields",
+            "Generated keys and hostile strings; implementation and reference validator must agree on acceptance of every string.",
+            "Reference Base58/BIP32 pinned to published vectors; bchec point arithmetic."),
+    "C06": ("property-based testing (rapid): round-trip against a reference WIF codec and hostile payloads with recomputed checksums "
+            "and exhaustive bit flips",
+            "Generated scalars (boundaries, forced leading zero bytes) x compression x networks; hostile strings judged by a "
+            "reference shape predicate.",
+            "bchec scalar multiplication provides the expected public point; acceptance of scalars 0 / >= n is not asserted."),
     "C07": ("property-based testing (rapid) + exhaustive small-scope enumeration against independent "
             "reference codecs (long-division Base58, BIP173 reference, bit-stream model) and an argument-purity canary",
             "Generated-input search: exhaustive over byte strings <=2 / alphabet strings <=3 / all byte strings <=2 (3 thorough), "
